@@ -31,7 +31,13 @@ LevelATrees == {ToFile(Plug(f, Marker(f.in)), f.out) : f \in AllFrames}
 LevelBTrees(dummy) == UNION {{ToFile(Plug(f2, Plug(f1, Marker(f1.in))), f2.out) :
                           f2 \in {g \in AllFrames : Fits(f1.out, g.in) /\ ~CalleeOfType(f1, g)}} : f1 \in AllFrames}
 \* nesting depth 64 (every deep frame plugged into itself 64 times around the marker)
-Trees == LevelATrees \cup DeepTrees(64, ME, MS) \cup (IF LevelB THEN LevelBTrees(0) ELSE {})
+\* directives are ordinary top-level parts: they may follow definitions (flattened sources)
+LatePragma(v) == N("SUP.PragmaDirective", [pragmaId |-> "solidity", value |-> v], <<>>)
+LateDirectiveTrees ==
+    {N("SU.SourceUnit", A0, <<<<Item0("First"), LatePragma("^0.8.0"), Item0("Second"), LatePragma("0.8.17")>>>>),
+     N("SU.SourceUnit", A0, <<<<PragmaNode, Item0("First"), LatePragma("^0.8.1"), Item0("Second")>>>>),
+     N("SU.SourceUnit", A0, <<<<Item0("Only"), LatePragma("^0.8.2")>>>>)}
+Trees == LevelATrees \cup LateDirectiveTrees \cup DeepTrees(64, ME, MS) \cup (IF LevelB THEN LevelBTrees(0) ELSE {})
 
 TargetSets == {AllTargets, {"PostIncrement"}, {"Expression", "VariableDefinition", "Block"}}
 
